@@ -135,6 +135,7 @@ func cmdRecord(args []string) int {
 	maxlen := fs.Int("maxlen", 90, "max input length (code points)")
 	parseOnly := fs.Int("parse-only-percent", 50, "share of histories that consist of one parse")
 	pinned := fs.String("pinned", "", "JSON array of inputs (strings) that are recorded first, one parse-only history each")
+	parserName := fs.String("parser", "default", "parser the histories run on (option list, see options.go)")
 	hostAlpha := fs.String("host-alphabet", "", "JSON array of code points: enumerate every host over it up to -host-len and record parse events for it (IDNA pipeline)")
 	hostLen := fs.Int("host-len", 3, "")
 	fs.Parse(args)
@@ -145,6 +146,7 @@ func cmdRecord(args []string) int {
 			return 2
 		}
 	}
+	recP := parserFor(*parserName)
 	corpus, bases := loadCorpus(*corpusPath)
 	r := rand.New(rand.NewSource(*seed))
 	ws := make([]*bufio.Writer, *chunks)
@@ -189,7 +191,7 @@ func cmdRecord(args []string) int {
 	for total < *n || len(pinnedInputs) > 0 {
 		w := ws[hists%*chunks]
 		hists++
-		m := interp.New(defaultP, NH)
+		m := interp.New(recP, NH)
 		m.Early = r.Intn(2) == 0
 		emit := func(e recEvent) {
 			if e.Bs == nil {
@@ -226,12 +228,12 @@ func cmdRecord(args []string) int {
 				e.Err = errc
 			}
 			if len(st.Bs) > 0 {
-				if bu, err := defaultP.Parse(st.Bs[0].ToGo()); err == nil && bu != nil && bu.Hostname() != "" {
+				if bu, err := recP.Parse(st.Bs[0].ToGo()); err == nil && bu != nil && bu.Hostname() != "" {
 					e.Bidna = []proj.Text{proj.FromGo(bu.Hostname())}
 				}
 			}
 			if !fail && st.Op != "clone" && m.U[st.H] != nil {
-				rt, ec := interp.DoReparse(defaultP, e.Objs[st.H-1].G)
+				rt, ec := interp.DoReparse(recP, e.Objs[st.H-1].G)
 				if ec == "" {
 					if rt.G == nil {
 						rt.G = &proj.Proj{}
